@@ -76,6 +76,13 @@ pub fn query2<T: Flt>(src: &mut Src, x: &[f64], y: &[f64]) -> ((f64, f64), &'sta
         let v = if src.bool() { v.up() } else { v.down() };
         v.f().clamp(a[0], a[a.len() - 1])
     };
+    // diagonal queries x == y (bit-equal), when that value lies in both ranges
+    if src.chance(1, 8) {
+        let v = inner(src, x);
+        if y[0] <= v && v <= y[y.len() - 1] {
+            return ((v, v), "q2:diagonal");
+        }
+    }
     match src.weighted(&[3, 2, 2, 3, 5]) {
         0 => ((knot(src, x), knot(src, y)), "q2:node"),
         1 => ((knot(src, x), inner(src, y)), "q2:line-x"),
@@ -114,7 +121,7 @@ impl Grid {
         let nx = if big { src.usize_in(13, 48) } else { src.usize_in(2, 12) };
         let ny = if src.chance(1, 5) { nx } else if big && src.bool() { src.usize_in(13, 48) } else { src.usize_in(2, 12) };
         let default_axes = src.chance(1, 4);
-        let (cx, cy) = if default_axes { (AxisClass::Index, AxisClass::Index) } else {
+        let (cx, mut cy) = if default_axes { (AxisClass::Index, AxisClass::Index) } else {
             let mut a = axis_class(src);
             let mut b = axis_class(src);
             // explicit means explicit: index class is produced only through default_axes or singly
@@ -125,7 +132,18 @@ impl Grid {
             (a, b)
         };
         let x = axis::<T>(src, nx, cx, None);
-        let y = axis::<T>(src, ny, cy, None);
+        let mut y = axis::<T>(src, ny, cy, None);
+        // related axes: y is x with another pitch, sharing its first node (square arrays with a different physical
+        // pitch per axis), or the very same axis
+        if nx == ny && !default_axes && src.chance(1, 6) {
+            let f = src.pick(&[1.0, 0.5, 2.0, 0.25]);
+            y = x.iter().map(|v| T::of(x[0] + (v - x[0]) * f).f()).collect();
+            if !y.windows(2).all(|w| w[0] < w[1]) {
+                y = x.clone();
+            }
+            // y is now an explicit axis whatever its class was
+            cy = AxisClass::Random;
+        }
         let mut trailing = trailing_shape(src, max_trailing, &[1, 2, 3]);
         while product(&trailing) > 8 {
             trailing.pop();
